@@ -31,6 +31,7 @@ pub fn run(cfg: &Config) -> i32 {
 		add(&mut total, pf::fam_unicode_sweep(cfg, flags));
 	}
 	add(&mut total, pf::fam_block_boundaries(cfg, flags));
+	add(&mut total, pf::fam_long_strings(cfg, flags, if cfg.san { 300 } else { 2300 }));
 	add(&mut total, pf::fam_generated(cfg, flags, cfg.budget(300_000, 10_000_000), true));
 	conclude(
 		cfg,
